@@ -709,7 +709,7 @@ func c05Set(c *Case, rng *Rng) {
 // stay short (see c05Join). `nominal` is the life of a queue in the operator: a burst of events
 // queued at the tail (AddLast, TailTasks of a result), then the worker (Success = removal by id) and
 // callers take them out again; the other cases mix every growth and removal route.
-func c05Burst(c *Case, rng *Rng, maxPeak int) {
+func c05Burst(c *Case, rng *Rng, maxPeak int, worker bool) {
 	w := newWorkerQ(fmt.Sprintf("c05b-%d", c.Idx))
 	defer w.close()
 	s := &qset{c: c, ws: []*workerQ{w}}
@@ -731,7 +731,7 @@ func c05Burst(c *Case, rng *Rng, maxPeak int) {
 	grow := func(k int, route string) {
 		c.Note("grow:" + route)
 		for k > 0 && budget > 0 && !w.poisoned {
-			if w.stuck && route == "tailTasks" {
+			if (w.stuck || !worker) && route == "tailTasks" {
 				route = "addLast"
 			}
 			switch route {
@@ -800,7 +800,7 @@ func c05Burst(c *Case, rng *Rng, maxPeak int) {
 		if n <= 0 {
 			return
 		}
-		if route == "success" && w.stuck {
+		if route == "success" && (w.stuck || !worker) {
 			route = "removeHeadById"
 		}
 		if route == "success" && n > 150 {
@@ -970,7 +970,11 @@ func runC05(r *Run) {
 	maxPeak := r.N(2600, 4500)
 	ct := r.CaseTimeout
 	r.CaseTimeout = 4 * time.Minute // thousands of observed steps per case; the machine may be loaded
-	r.Cases(700000, r.N(20, 40), 0, func(c *Case, rng *Rng) { c05Burst(c, rng, maxPeak) })
+	// callers only (AddLast/AddFirst/AddAfter, Remove/RemoveLast/RemoveFirst/Filter), in parallel …
+	r.Cases(700000, r.N(16, 32), 0, func(c *Case, rng *Rng) { c05Burst(c, rng, maxPeak, false) })
+	// … and with the real worker (TailTasks of results, Success), one case at a time: a panic in the
+	// queue's own goroutine takes the process down, the supervisor then has exactly one case to blame
+	r.Cases(710000, r.N(4, 8), 1, func(c *Case, rng *Rng) { c05Burst(c, rng, maxPeak, true) })
 	r.CaseTimeout = ct
 	n := r.N(3000, 40000)
 	r.Cases(10, n, 0, func(c *Case, rng *Rng) {
